@@ -91,7 +91,7 @@ func RunReshareApply(out string, seed int64, tier string) error {
 			shapes := [][2]int{{3, 2}, {4, 3}, {5, 3}, {4, 2}}
 			sh := shapes[rng.Intn(len(shapes))]
 			tt := w.Genesis + int64(3+rng.Intn(5))*w.Period
-			ep, err := w.newEpoch(sh[0], sh[1], tt, nil)
+			ep, err := w.newEpoch(sh[0], sh[1], tt, nil, -1)
 			if err != nil {
 				cancel()
 				return err
